@@ -8,7 +8,14 @@
 //	                Location methods it calls.
 //	DispatchTable.v for every `case "/api/..."` of Service.ProcessRequest:
 //	                parameter getters used and System methods called; plus
-//	                parameterTypes of httpd.go.
+//	                parameterTypes of httpd.go; plus (dispatch_getters,
+//	                dispatch_calls, dispatch_effects) for every case: each
+//	                getter with "is the parameter required" and "is the
+//	                getter's error returned to the caller by the very next
+//	                statement", each System call with "is its error
+//	                returned", and the source-order re-dispatch effects
+//	                (m["k"] = literal, recursive s.ProcessRequest calls
+//	                and whether their result is used).
 //	LockTable.v     for every method of IndexedState / LinearState: the
 //	                source-order sequence of lock, unlock, cache, map/index
 //	                and Store events.
@@ -251,6 +258,162 @@ func genGateTable(repo, out string) {
 
 // ---------------------------------------------------------------- DispatchTable
 
+type getterFact struct {
+	getter, param     string
+	required, checked bool
+}
+
+var getterNames = map[string]bool{"GetStringParam": true, "getBoolParam": true, "getMapParam": true, "GetMapParam": true, "getStringParam": true}
+
+// errReturnedBy: is st `if err != nil { ...; return ..., err }` (or `nil != err`)
+// with the return directly in the if body?
+func errReturnedBy(st ast.Stmt) bool {
+	is, ok := st.(*ast.IfStmt)
+	if !ok || is.Init != nil {
+		return false
+	}
+	return condIsErrNotNil(is.Cond) && bodyReturnsErr(is.Body)
+}
+
+func condIsErrNotNil(c ast.Expr) bool {
+	be, ok := c.(*ast.BinaryExpr)
+	if !ok || be.Op != token.NEQ {
+		return false
+	}
+	a, b := exprString(be.X), exprString(be.Y)
+	return (a == "err" && b == "nil") || (a == "nil" && b == "err")
+}
+
+func bodyReturnsErr(b *ast.BlockStmt) bool {
+	for _, st := range b.List {
+		if rs, ok := st.(*ast.ReturnStmt); ok && len(rs.Results) > 0 {
+			return exprString(rs.Results[len(rs.Results)-1]) == "err"
+		}
+	}
+	return false
+}
+
+// lhsHasErr: does the assignment bind an identifier named err (last position)?
+func lhsHasErr(as *ast.AssignStmt) bool {
+	if len(as.Lhs) == 0 {
+		return false
+	}
+	return exprString(as.Lhs[len(as.Lhs)-1]) == "err"
+}
+
+// refineCase walks the statement lists of one case body (nested blocks
+// included, in source order) and classifies getter calls, System calls and
+// re-dispatch effects.
+func refineCase(body []ast.Stmt) (gs []getterFact, calls []string, effects []string) {
+	var walkList func(list []ast.Stmt)
+	classifyCall := func(c *ast.CallExpr, as *ast.AssignStmt, next ast.Stmt, selfChecked bool) {
+		fn := exprString(c.Fun)
+		checked := selfChecked
+		hasErr := as != nil && lhsHasErr(as)
+		if !checked && hasErr && next != nil && errReturnedBy(next) {
+			checked = true
+		}
+		switch {
+		case getterNames[fn] && len(c.Args) >= 3:
+			p := "?"
+			if l, ok := c.Args[1].(*ast.BasicLit); ok {
+				p, _ = strconv.Unquote(l.Value)
+			}
+			gs = append(gs, getterFact{fn, p, exprString(c.Args[2]) == "true", checked})
+		case strings.HasPrefix(fn, "s.System."):
+			m := strings.TrimPrefix(fn, "s.System.")
+			switch {
+			case !hasErr && !selfChecked:
+				calls = append(calls, m+":noerr")
+			case checked:
+				calls = append(calls, m+":checked")
+			default:
+				calls = append(calls, m+":unchecked")
+			}
+		case fn == "s.ProcessRequest":
+			used := "ignored"
+			if as != nil {
+				for _, l := range as.Lhs {
+					if exprString(l) != "_" {
+						used = "used"
+					}
+				}
+			}
+			out := "out"
+			if len(c.Args) >= 3 && exprString(c.Args[2]) != "out" {
+				out = "discard"
+			}
+			effects = append(effects, "redispatch:"+used+":"+out)
+		}
+	}
+	var walkStmt func(st ast.Stmt, next ast.Stmt)
+	walkStmt = func(st ast.Stmt, next ast.Stmt) {
+		switch x := st.(type) {
+		case *ast.AssignStmt:
+			// m["key"] = literal
+			if len(x.Lhs) == 1 && len(x.Rhs) == 1 {
+				if ix, ok := x.Lhs[0].(*ast.IndexExpr); ok && exprString(ix.X) == "m" {
+					if k, ok := ix.Index.(*ast.BasicLit); ok {
+						ks, _ := strconv.Unquote(k.Value)
+						vs := exprString(x.Rhs[0])
+						if l, ok := x.Rhs[0].(*ast.BasicLit); ok && l.Kind == token.STRING {
+							vs, _ = strconv.Unquote(l.Value)
+						}
+						effects = append(effects, "set:"+ks+"="+vs)
+					}
+				}
+			}
+			for _, r := range x.Rhs {
+				if c, ok := r.(*ast.CallExpr); ok {
+					classifyCall(c, x, next, false)
+				}
+			}
+		case *ast.ExprStmt:
+			if c, ok := x.X.(*ast.CallExpr); ok {
+				classifyCall(c, nil, next, false)
+			}
+		case *ast.IfStmt:
+			if as, ok := x.Init.(*ast.AssignStmt); ok {
+				self := condIsErrNotNil(x.Cond) && bodyReturnsErr(x.Body)
+				for _, r := range as.Rhs {
+					if c, ok := r.(*ast.CallExpr); ok {
+						classifyCall(c, as, nil, self)
+					}
+				}
+			}
+			walkList(x.Body.List)
+			if x.Else != nil {
+				walkStmt(x.Else, nil)
+			}
+		case *ast.BlockStmt:
+			walkList(x.List)
+		case *ast.ForStmt:
+			walkList(x.Body.List)
+		case *ast.RangeStmt:
+			walkList(x.Body.List)
+		case *ast.SwitchStmt:
+			walkList(x.Body.List)
+		case *ast.TypeSwitchStmt:
+			walkList(x.Body.List)
+		case *ast.CaseClause:
+			walkList(x.Body)
+		case *ast.GoStmt, *ast.DeferStmt:
+			// asynchronous / deferred work is not part of the dispatch result
+		}
+	}
+	walkList = func(list []ast.Stmt) {
+		for i, st := range list {
+			var next ast.Stmt
+			if i+1 < len(list) {
+				next = list[i+1]
+			}
+			walkStmt(st, next)
+		}
+	}
+	walkList(body)
+	return
+}
+
 func genDispatchTable(repo, out string) {
 	fset := token.NewFileSet()
 	files := parseDir(fset, filepath.Join(repo, "service"))
@@ -258,12 +421,20 @@ func genDispatchTable(repo, out string) {
 		uri     string
 		getters []string
 		calls   []string
+		// refined facts (C18)
+		getters4 []getterFact
+		calls2   []string
+		effects  []string
+		fn       string // enclosing function
 	}
 	var entries []entry
 	var ptypes [][2]string
 	for _, f := range files {
+		curFn := ""
 		ast.Inspect(f, func(n ast.Node) bool {
 			switch x := n.(type) {
+			case *ast.FuncDecl:
+				curFn = x.Name.Name
 			case *ast.CaseClause:
 				for _, e := range x.List {
 					lit, ok := e.(*ast.BasicLit)
@@ -274,7 +445,7 @@ func genDispatchTable(repo, out string) {
 					if !strings.HasPrefix(uri, "/api/") {
 						continue
 					}
-					en := entry{uri: uri}
+					en := entry{uri: uri, fn: curFn}
 					for _, st := range x.Body {
 						ast.Inspect(st, func(m ast.Node) bool {
 							c, ok := m.(*ast.CallExpr)
@@ -301,6 +472,7 @@ func genDispatchTable(repo, out string) {
 							return true
 						})
 					}
+					en.getters4, en.calls2, en.effects = refineCase(x.Body)
 					entries = append(entries, en)
 				}
 			case *ast.ValueSpec:
@@ -341,6 +513,61 @@ func genDispatchTable(repo, out string) {
 			sep = ""
 		}
 		fmt.Fprintf(&b, "  (%s, (%s, %s))%s\n", coqStr(e.uri), coqList(e.getters), coqList(e.calls), sep)
+	}
+	b.WriteString("].\n\n")
+	// refined tables (only for the cases of Service.ProcessRequest and ServeHTTP; duplicates kept)
+	b.WriteString("(** uri -> getters in source order: (getter, parameter, required, checked) where\n")
+	b.WriteString("    checked = the statement right after the call is `if err != nil { return ..., err }`\n")
+	b.WriteString("    (the getter's error reaches the caller) *)\n")
+	b.WriteString("Definition dispatch_getters : list (string * list (string * string * bool * bool)) := [\n")
+	for i, e := range entries {
+		sep := ";"
+		if i == len(entries)-1 {
+			sep = ""
+		}
+		var gs []string
+		for _, g := range e.getters4 {
+			gs = append(gs, fmt.Sprintf("(%s, %s, %v, %v)", coqStr(g.getter), coqStr(g.param), g.required, g.checked))
+		}
+		fmt.Fprintf(&b, "  (%s, [%s])%s\n", coqStr(e.uri), strings.Join(gs, "; "), sep)
+	}
+	b.WriteString("].\n\n")
+	b.WriteString("(** uri -> System calls in source order, \"Method:checked\" (error returned by the next statement),\n")
+	b.WriteString("    \"Method:unchecked\" (an error result exists and is not returned) or \"Method:noerr\" *)\n")
+	b.WriteString("Definition dispatch_calls : list (string * list string) := [\n")
+	for i, e := range entries {
+		sep := ";"
+		if i == len(entries)-1 {
+			sep = ""
+		}
+		fmt.Fprintf(&b, "  (%s, %s)%s\n", coqStr(e.uri), coqList(e.calls2), sep)
+	}
+	b.WriteString("].\n\n")
+	b.WriteString("(** uri -> re-dispatch effects in source order: \"set:key=literal\" for m[\"key\"] = literal,\n")
+	b.WriteString("    \"redispatch:used|ignored:out|discard\" for a recursive s.ProcessRequest(ctx, m, out|ioutil.Discard)\n")
+	b.WriteString("    whose results are used / thrown away *)\n")
+	b.WriteString("Definition dispatch_effects : list (string * list string) := [\n")
+	for i, e := range entries {
+		sep := ";"
+		if i == len(entries)-1 {
+			sep = ""
+		}
+		fmt.Fprintf(&b, "  (%s, %s)%s\n", coqStr(e.uri), coqList(e.effects), sep)
+	}
+	b.WriteString("].\n\n")
+	b.WriteString("(** (case label, enclosing Go function), duplicates removed *)\n")
+	b.WriteString("Definition dispatch_sites : list (string * string) := [\n")
+	{
+		var sites []string
+		seen := map[string]bool{}
+		for _, e := range entries {
+			k := fmt.Sprintf("(%s, %s)", coqStr(e.uri), coqStr(e.fn))
+			if !seen[k] {
+				seen[k] = true
+				sites = append(sites, k)
+			}
+		}
+		b.WriteString("  " + strings.Join(sites, ";\n  ") + "\n")
 	}
 	b.WriteString("].\n\n")
 	b.WriteString("Definition parameter_types : list (string * string) := [\n")
